@@ -42,7 +42,13 @@
               step = op fresh <vtable> <www:bytes> <info:bytes>  ok state pid auth done <ohdr>
               op: 0 SetInitiateChallenge, 1 ParseHeader(WWW-Authenticate = www, Authentication-Info = info),
                   2 Run;   ok: the call returned nil;  state: h.state;  pid: PeerID() (-1 error);
-              auth: ServerAuthenticated(); done: HandshakeDone(); ohdr: the header builder's content. *)
+              auth: ServerAuthenticated(); done: HandshakeDone(); ohdr: the header builder's content.
+   kind 5   ClientPeerIDAuth.AuthenticatedDo (no stored token) against a scripted server, over HTTP:
+                                    5 ckey host nfresh fresh* nresp (status <vtable> <www:bytes> <info:bytes>)*
+                                      pid nreq <ohdr>*
+              fresh: the challenge atom armed for each Run call, in order; the responses in the
+              order served; pid: the peer id AuthenticatedDo returned (-1 = it returned an error);
+              nreq requests were received, ohdr = their Authorization headers. *)
 From Coq Require Import List NArith ZArith Bool.
 From Verif Require Import lib.Wire c08.Varint c08.SymCrypto gen.Consts_c19 c19.Model.
 Import ListNotations.
@@ -422,6 +428,60 @@ Fixpoint monitor_client (ckey host : N) (own vals : list term) (i : Z) (steps : 
       else viol 4 [i; cs_pid s]
   end.
 
+(* ---- kind 5: AuthenticatedDo ------------------------------------------------------------ *)
+Fixpoint get_resps (n : nat) (l : list Z) : option (list resp * list Z) :=
+  match n with
+  | O => Some ([], l)
+  | S k =>
+      do (_, r0) <- get_z l; do (tbl, r1) <- get_vtable r0;
+      do (www, r2) <- get_bytes r1; do (info, r3) <- get_bytes r2;
+      do (rest, r4) <- get_resps k r3; Some (mkResp tbl www info :: rest, r4)
+  end.
+
+Fixpoint get_ohdrs (n : nat) (l : list Z) : option (list ohdr * list Z) :=
+  match n with
+  | O => Some ([], l)
+  | S k => do (h, r) <- get_ohdr l; do (rest, r1) <- get_ohdrs k r; Some (h :: rest, r1)
+  end.
+
+Record case5 := mkC5 { c5_key : N; c5_host : N; c5_fresh : list N; c5_resps : list resp;
+                       c5_pid : Z; c5_reqs : list ohdr }.
+
+Definition decode5 (l : list Z) : option case5 :=
+  do (k, r) <- get_n l; do (host, r1) <- get_n r; do (nf, r2) <- get_z r1;
+  if small nf then
+    do (fr, r3) <- get_ns (Z.to_nat nf) r2; do (nr, r4) <- get_z r3;
+    if small nr then
+      do (rs, r5) <- get_resps (Z.to_nat nr) r4; do (pid, r6) <- get_z r5; do (nq, r7) <- get_z r6;
+      if small nq then
+        do (qs, r8) <- get_ohdrs (Z.to_nat nq) r7;
+        match r8 with [] => Some (mkC5 k host fr rs pid qs) | _ => None end
+      else None
+    else None
+  else None.
+
+Definition conform5 (c : case5) : list Z :=
+  match auth_do_i (c5_key c) (c5_host c) (c5_resps c) (c5_fresh c) with
+  | None => malformed 51
+  | Some (pid, reqs) =>
+      if negb (z_of_on pid =? c5_pid c) then mism 50 [z_of_on pid; c5_pid c]
+      else if negb (list_eqb ohdr_eqb reqs (c5_reqs c)) then mism 51 [zlen reqs; zlen (c5_reqs c)]
+      else []
+  end.
+
+(* everything the responses carried *)
+Definition resp_values (rs : list resp) : list term :=
+  flat_map (fun r => carried (r_tbl r) (r_www r) ++ carried (r_tbl r) (r_info r)) rs.
+
+(* the property at AuthenticatedDo: the returned id must be proven by a received
+   signature over one of the challenges the client's own random source produced
+   in this call, the client's key and the hostname *)
+Definition monitor5 (c : case5) : list Z :=
+  if 0 <=? c5_pid c then
+    if proves (c5_key c) (c5_host c) (map atom (c5_fresh c)) (resp_values (c5_resps c)) (Z.to_N (c5_pid c))
+    then [] else viol 5 [c5_pid c]
+  else [].
+
 (* ---- the two entry points -------------------------------------------------------------- *)
 Definition conform_case (l : list Z) : list Z :=
   match l with
@@ -432,6 +492,7 @@ Definition conform_case (l : list Z) : list Z :=
               | Some (k, host, steps) => conform_client (client_init k host) 0 steps
               | None => malformed 4
               end
+  | 5 :: r => match decode5 r with Some c => conform5 c | None => malformed 5 end
   | _ => malformed 0
   end.
 
@@ -444,5 +505,6 @@ Definition monitor_case (l : list Z) : list Z :=
               | Some (k, host, steps) => monitor_client k host [] [] 0 steps
               | None => malformed 4
               end
+  | 5 :: r => match decode5 r with Some c => monitor5 c | None => malformed 5 end
   | _ => malformed 0
   end.
